@@ -114,6 +114,11 @@ class Isomorphism(Generic[ClassType1, ObjType1, ClassType2, ObjType2]):
         if is_base_case:
             return bool(is_base_case + 1)
 
+        # Matches found below rely on the assumption that the current pair matches
+        # (recursive matches to an ancestor are accepted). Remember what was known
+        # before, so that they can be forgotten if the current pair fails.
+        known_matches = set(self._order_map)
+
         # Update ancestors for recursion
         self._ancestors.update(product(eq_path1, eq_path2))
 
@@ -178,6 +183,9 @@ class Isomorphism(Generic[ClassType1, ObjType1, ClassType2, ObjType2]):
         self._ancestors.difference_update(product(eq_path1, eq_path2))
         self._failed.add((curr1, curr2))
         self._index_data.pop((curr1, curr2), None)
+        for key in set(self._order_map) - known_matches:
+            del self._order_map[key]
+            self._index_data.pop(key, None)
         return False
 
     def _get_eq_descendant(
